@@ -10,7 +10,14 @@ ID = "C20"
 HEADER = "From A816 Require Import Oracle.C20o.\nRequire Import Run.GenBuses."
 CASE_TYPE = "anycase"
 CHECK = "check_any"
-THEOREMS = ["C20_low", "C20_low2", "C20_high", "C20_long_pointer", "C20_base_relative", "C20_live"]
+THEOREMS = ["C20_low", "C20_low2", "C20_high", "C20_long_pointer", "C20_base_relative", "C20_live",
+            # script/pointers.py, the users of the formulas (Properties/C20Pointers.v)
+            "C20_pointers_partition", "C20_pointers_single", "C20_pointers_values", "C20_pointers_addresses",
+            "C20_pointers_addresses_roundtrip", "C20_pointers_base_relative_roundtrip", "C20_pointers_dump_roundtrip",
+            "C20_pointers_append", "C20_pointers_recode", "C20_pointers_recode_roundtrip"]
+PROOF_HEADER = "From A816 Require Import Properties.C20 Properties.C20Pointers."
+# model-tie modules whose correspondence is part of this property's check
+TIES = ['PTRS']
 RULE = ("rom_to_snes / snes_to_rom / their round trip at every bank boundary +-{0,1,0x7FFF,0x8000} in the three modes, "
         "random offsets of the 4 MiB space (thorough: a dense stride sweep), out-of-range and negative offsets "
         "(correspondence only); the address is also looked up in the assembler's own bus (its file offset must be the offset); long_low_rom_pointer and base_relative_16bits_pointer_formula on a grid of boundary "
